@@ -115,6 +115,19 @@ def make_instance(cls, rng, depth=2, fill=0.7, foreign=0.0, stats=None, want_tex
     return inst
 
 
+def members_in_order(cls):
+    """child members straight from the class tables (not through the library's own iteration helper): c_child_order first, then whatever
+    c_children declares beyond it"""
+    declared = [v[0] for v in cls.c_children.values()]
+    out = [m for m in cls.c_child_order if m in declared]
+    seen = set(out)
+    for m in declared:
+        if m not in seen:
+            seen.add(m)
+            out.append(m)
+    return out
+
+
 def _norm_text(t):
     return t if t else None
 
@@ -129,8 +142,7 @@ def describe(obj, path="", known_only=False):
     attrs = tuple(sorted((xml, getattr(obj, member)) for xml, (member, _t, _r) in cls.c_attributes.items()
                          if getattr(obj, member, None) is not None))
     kids = []
-    order = list(obj._get_all_c_children_with_order()) if hasattr(obj, "_get_all_c_children_with_order") else []
-    for member in order:
+    for member in members_in_order(cls):
         v = getattr(obj, member, None)
         if v is None:
             continue
